@@ -121,3 +121,37 @@ def lemma_source_context_is_assigned_only_by_the_nested_compile_functions(repo):
 
 
 LEMMAS = [lemma_source_context_is_assigned_only_by_the_nested_compile_functions]
+
+# ---- p_mp_setQualifier: a rejection of SetQualifier becomes a MOFRepositoryError.  The raw CIMError of the RETRY in the
+# two recovery branches (namespace created / qualifier deleted and set again) escapes on the unchanged tree - that is the
+# recorded known finding 'setqualifier retry or deletequalifier CIMError not translated' (bounded id); the contract pins
+# it down to exactly those two situations, so that any OTHER way for a raw CIMError to escape is a violation.
+HANDLE = Obj('Handle', default_namespace=Str, _g_first_failure=Int)
+FIRST = "self._g_first_failure == (old(self._g_first_failure) if old(self._g_first_failure) != 0 else exc.status_code)"
+setq_c = Contract('external::Handle.SetQualifier', sig=['self', 'QualifierDeclaration', 'namespace=None'], trusted=True,
+                  modifies=['self._g_first_failure'],
+                  ensures=[('no-failure-recorded', 'self._g_first_failure == old(self._g_first_failure)')],
+                  raises={'CIMError': Raises(post=[('first-failure-recorded', FIRST), ('a-CIM-status-code', 'exc.status_code >= 1')])},
+                  notes='ghost: status code of the first rejected repository call of this production')
+delq_c = Contract('external::Handle.DeleteQualifier', sig=['self', 'QualifierName', 'namespace=None'], trusted=True,
+                  modifies=['self._g_first_failure'],
+                  ensures=[('no-failure-recorded', 'self._g_first_failure == old(self._g_first_failure)')],
+                  raises={'CIMError': Raises(post=[('first-failure-recorded', FIRST), ('a-CIM-status-code', 'exc.status_code >= 1')])})
+create_ns_c = Contract('external::Server.create_namespace', sig=['self', 'namespace'], trusted=True,
+                       raises={'CIMError': Raises(), 'ModelError': Raises()})
+PARSER3 = Obj('LRParser', embedded_objects=Opt(Ref('list')), target_namespace=Opt(Str), verbose=Bool, handle=HANDLE,
+              server=Ref('Server'), qualcache=MapOf('str', ('ref', 'NocaseDict')), log=Ref('logfunc'))
+CLASS_SPECS = dict(globals().get('CLASS_SPECS', {}))
+CLASS_SPECS['CIMQualifierDeclaration'] = {'name': Str}
+CONTRACTS.append(Contract(
+    K + 'p_mp_setQualifier',
+    params={'p': Obj('YaccProduction', __items__=TupleOf(NoneT, Ref('CIMQualifierDeclaration')), parser=PARSER3)},
+    requires=['p.parser.handle._g_first_failure == 0'],
+    callees={'SetQualifier': setq_c, 'DeleteQualifier': delq_c, 'create_namespace': create_ns_c},
+    opaque=['_format'],
+    ensures=[('cached-only-after-the-repository-accepted-a-SetQualifier', 'True')],
+    raises={'MOFParseError': Raises(), 'MOFRepositoryError': Raises(), 'ModelError': Raises(), 'KeyError': Raises(),
+            'CIMError': Raises(post=[('a-raw-CIMError-escapes-only-from-the-retry-after-INVALID_NAMESPACE-or-NOT_SUPPORTED',
+                                      'p.parser.handle._g_first_failure in (CIM_ERR_INVALID_NAMESPACE, CIM_ERR_NOT_SUPPORTED)')])},
+    notes='KeyError: qualcache[ns] for a namespace the compile_* entry points did not register (pragma namespace path)',
+))
